@@ -53,6 +53,12 @@ def cont_block(rng, key):
 def gen_commit(rng):
     tree = hexoid(rng)
     parents = [hexoid(rng) for _ in range(rng.choice([0, 1, 1, 2, 3, 8]))]
+    if parents and rng.random() < 0.2:
+        # the same parent named more than once (git hash-object and fsck accept it; rev-list --parents shows every line)
+        for _ in range(rng.choice([1, 1, 2])):
+            parents.insert(rng.randrange(len(parents) + 1), rng.choice(parents))
+    if rng.random() < 0.05:
+        parents.append(tree)      # a parent line carrying the same id as the tree line
     hdr = [b"tree " + tree + b"\n"] + [b"parent " + p + b"\n" for p in parents]
     extra = [b"author A U Thor <a@example.com> 1112911993 -0700\n", b"committer C <c@example.com> 1 +0000\n"]
     if rng.random() < 0.5:
